@@ -1,13 +1,17 @@
 (* C08 — property theorems only.
 
-   M (Model.v) is slip's mechanism: list objects whose slots are replaced in place by compiled function
-   objects holding a pointer to a Lambda, Lambdas patched in place by defun, placeholders for calls of
-   functions that do not exist yet, Code.Compile.  S (Spec.v) evaluates the list forms as read with the
-   definition each name has at the moment of the call.  `Inv st` relates the compiled slots and the two
-   function tables of a model state; `Rel st ft` says the names have the definitions ft in st.
-   `comparable r`: r is a value or a condition other than undefined-function (and not "out of fuel"). *)
-From Coq Require Import List String Permutation.
-From C08 Require Import Model Spec Proofs.
+   M (Model.v) is slip's mechanism (with repo_fixes/C08-1..4 applied): list objects whose slots are replaced in place
+   by compiled function objects holding a pointer to a Lambda, ONE registered Lambda per name that takes every
+   new definition over and that every creator hands out, placeholders for calls of functions that do not exist
+   yet, Code.Compile.  S (Spec.v) evaluates the list forms as read with the definition each name has at the
+   moment of the call.  `Inv st` relates the compiled slots and the two function tables of a model state;
+   `Rel st ft` says the names have the definitions ft in st.
+   `comparable r`: r is a value or a condition other than undefined-function (and not "out of fuel"): the domain
+   on which the one-policy specification evalS is binding.  There is no guard on programs or histories any more;
+   the undefined-function outcomes are covered exactly by evalL/runL, S with the lookup time of an undefined
+   operator (left open by CLHS 3.1.2.1.2.3) as a parameter - section (9b). *)
+From Coq Require Import List ZArith String Permutation.
+From C08 Require Import Model Spec Proofs ProofsLate ProofsProgram.
 Import ListNotations.
 
 (* (1) Cache transparency, and compiled = list form, at the level of one evaluation: in EVERY state
@@ -46,28 +50,28 @@ Theorem C08_compile_then_evaluate : forall n st ft en e rS oS,
 Proof. exact compile_transparent. Qed.
 Print Assumptions C08_compile_then_evaluate.
 
-(* (5) A definition inside the guard keeps the invariant and gives the name exactly that definition:
-   in particular a placeholder created for an earlier call is patched so that the earlier compiled
-   calls (which keep their arguments) reach the new body. *)
+(* (5) EVERY definition - of a new name, of a name called before (placeholder), a second or third definition -
+   keeps the invariant and gives the name exactly that definition: the Lambda registered for the name takes
+   the definition over and is the one all compiled calls hold (no guard since repo_fixes/C08-3). *)
 Theorem C08_defun_step : forall st ft name ps body,
-  Inv st -> Rel st ft -> g_defun st name ps body = true ->
+  Inv st -> Rel st ft ->
   Inv (defunM st name ps body) /\ Rel (defunM st name ps body) ((name, (ps, body)) :: ft) /\
   out (defunM st name ps body) = out st.
 Proof. exact defunM_step. Qed.
 Print Assumptions C08_defun_step.
 
 (* (6) Late binding: code that has been evaluated (so its slots are compiled and hold Lambda pointers)
-   sees a redefinition made afterwards: its next evaluation is S's with the new definition. *)
+   sees ANY redefinition made afterwards: its next evaluation is S's with the new definition. *)
 Theorem C08_redefinition_seen_by_cached_code : forall n st ft en e g ps body r0 st0 rS oS,
-  Inv st -> Rel st ft -> evalM n st en e = (r0, st0) -> g_defun st0 g ps body = true ->
+  Inv st -> Rel st ft -> evalM n st en e = (r0, st0) ->
   evalS n ((g, (ps, body)) :: ft) en (out st0) e = (rS, oS) -> comparable rS = true ->
   exists st1, evalM n (defunM st0 g ps body) en e = (rS, st1) /\ out st1 = oS.
 Proof. exact late_binding. Qed.
 Print Assumptions C08_redefinition_seen_by_cached_code.
 
 (* (6b) "A call to a not-yet-defined function still passes its arguments once the function exists":
-   compile a form while g is unknown (its calls of g become placeholder calls), then define g (always
-   inside the guard), then evaluate the compiled form: S's outcome with g's definition - in particular g's
+   compile a form while g is unknown (its calls of g become placeholder calls), then define g, then
+   evaluate the compiled form: S's outcome with g's definition - in particular g's
    parameters are bound to the values of the call's arguments. *)
 Theorem C08_forward_reference_passes_arguments : forall n st ft en e g ps body rS oS,
   Inv st -> Rel st ft -> slookup g (funcs st) = None ->
@@ -78,59 +82,141 @@ Print Assumptions C08_forward_reference_passes_arguments.
 
 (* (7) Definition-order independence.  (a) in S the table after a block of definitions of distinct names
    is the same function of the set of definitions for every order, hence every later evaluation is the
-   same; (b) the same for M: after the block in either order, every form evaluates to S's outcome;
-   (c) a block of distinct names, none defined before (possibly called before), is inside the guard in
-   every order - so from the empty state (b) needs no guard hypothesis. *)
+   same; (b) the same for M, in EVERY state satisfying the invariant (the names may have been defined, called
+   or compiled before): after the block in either order, every form evaluates to S's outcome. *)
 Theorem C08_order_independent_spec : forall ds ds' ft, Permutation ds ds' -> NoDup (map fst ds) ->
   forall n en o e, evalS n (deftab ds ft) en o e = evalS n (deftab ds' ft) en o e.
 Proof. exact order_independent_S. Qed.
 Print Assumptions C08_order_independent_spec.
 Theorem C08_order_independent : forall ds ds' st ft, Inv st -> Rel st ft ->
   Permutation ds ds' -> NoDup (map fst ds) ->
-  guard_defuns st ds = true -> guard_defuns st ds' = true ->
   forall n en e rS oS, evalS n (deftab ds ft) en (out st) e = (rS, oS) -> comparable rS = true ->
   exists st1 st2, evalM n (defunsM st ds) en e = (rS, st1) /\ evalM n (defunsM st ds') en e = (rS, st2) /\
                   out st1 = oS /\ out st2 = oS.
 Proof. exact order_independent_M. Qed.
 Print Assumptions C08_order_independent.
-Theorem C08_fresh_definitions_guarded : forall ds st ft, Inv st -> Rel st ft -> NoDup (map fst ds) ->
-  (forall f, In f (map fst ds) -> canon_or_new st f) -> guard_defuns st ds = true.
-Proof. exact fresh_defs_guarded. Qed.
-Print Assumptions C08_fresh_definitions_guarded.
 
-(* (8) Histories: every sequence of {read a code object, Code.Compile it, evaluate it} whose definitions
-   are inside the guard gives, evaluation by evaluation, S's outcome (equal where S is binding; never a
-   value where S has none), from the empty state. *)
-Theorem C08_history_refines : forall n ops, guard_ops n minit ops = true ->
-  Forall2 osim (runS n sinit ops) (runM n minit ops).
+(* (8) Histories: EVERY sequence of {read a code object, Code.Compile it, evaluate it} - any definitions and
+   redefinitions, any bodies, in any order - gives, evaluation by evaluation, S's outcome (equal where S is
+   binding; never a value where S has none), from the empty state.  No guard: this is the statement that was
+   refuted for the unrepaired code (C08_refinement_needs_guard_refuted, removed with repo_fixes/C08-3). *)
+Theorem C08_history_refines : forall n ops, Forall2 osim (runS n sinit ops) (runM n minit ops).
 Proof. exact history_refines. Qed.
 Print Assumptions C08_history_refines.
 
-(* (9) Outside the guard the faithful model violates S (= known findings).
-   C08-stale-lambda: once a name's creator holds a Lambda other than the registered one (after a forward
-   reference plus its definition, or after a second definition), calls compiled from then on are not
-   reached by the next redefinition. *)
-Theorem C08_refinement_needs_guard_refuted :
-  ~ (forall n ops, Forall2 osim (runS n sinit ops) (runM n minit ops)).
-Proof. exact refinement_needs_guard_refuted. Qed.
-Print Assumptions C08_refinement_needs_guard_refuted.
-(* C08-undefined-args-first: a compiled call of an undefined function evaluates its arguments before
-   signalling undefined-function (the list form signals first), so M = S cannot be claimed for outcomes
-   where S says undefined-function. *)
-Theorem C08_undefined_call_equal_refuted :
-  ~ (forall n ops, guard_ops n minit ops = true -> runM n minit ops = runS n sinit ops).
-Proof. exact undefined_call_equal_refuted. Qed.
-Print Assumptions C08_undefined_call_equal_refuted.
+(* (9) The witnesses of the repaired findings C08-stale-lambda-after-forward-reference and
+   C08-stale-lambda-after-second-definition: M gives S's answers (2 and 3; the unrepaired code gave 1 and 2). *)
+Theorem C08_stale_lambda_repaired :
+  runM 50 minit stale_ops = [(Val (VInt 2%Z), [])] /\ runS 50 sinit stale_ops = [(Val (VInt 2%Z), [])] /\
+  runM 50 minit stale_ops2 = [(Val (VInt 3%Z), [])] /\ runS 50 sinit stale_ops2 = [(Val (VInt 3%Z), [])].
+Proof. exact stale_lambda_repaired. Qed.
+Print Assumptions C08_stale_lambda_repaired.
+(* (9b) The time at which an undefined operator is noticed.  CLHS 3.1.2.1.2.3 leaves open whether the definition of
+   the operator of a function form is looked up before or after the evaluation of its arguments; slip's list form
+   does the former, its compiled call (a call of the placeholder) the latter.  The former finding
+   C08-undefined-args-first is therefore not a defect, and the specification takes the lookup time as a parameter:
+   evalL late (Spec.v).  evalL with every lookup early IS evalS: *)
+Theorem C08_lookup_early_is_spec : forall ft n en o e, evalL early n ft en o e = evalS n ft en o e.
+Proof. exact evalL_early. Qed.
+Print Assumptions C08_lookup_early_is_spec.
+(* Wherever evalS is binding (`comparable`: a value or a condition other than undefined-function) the lookup time
+   is irrelevant: evalL gives that outcome for EVERY policy.  So theorems (1)-(8), stated with evalS and
+   `comparable`, say the same under any lookup time the language allows. *)
+Theorem C08_lookup_time_irrelevant_where_binding : forall late ft n en o e r o',
+  evalS n ft en o e = (r, o') -> comparable r = true -> evalL late n ft en o e = (r, o').
+Proof. exact evalL_policy_irrelevant. Qed.
+Print Assumptions C08_lookup_time_irrelevant_where_binding.
+(* Exactness, undefined-function outcomes included: in every state satisfying the invariant, M computes exactly
+   evalL for the policy `latef st` (an undefined name is noticed late iff it has a placeholder, i.e. some call of it
+   has been compiled): the same result or condition - undefined-function, or the error of an argument evaluated
+   before it - and the same emitted values.  Only S running out of fuel is not binding. *)
+Theorem C08_evaluation_exact : forall n st ft en e rS oS, Inv st -> Rel st ft ->
+  evalL (latef st) n ft en (out st) e = (rS, oS) -> binding rS = true ->
+  exists st', evalM n st en e = (rS, st') /\ out st' = oS.
+Proof. exact evalM_exact. Qed.
+Print Assumptions C08_evaluation_exact.
+(* The same for EVERY history from the empty state: under the lookup times of M's run (`pols_run`: one policy per
+   evaluated top-level form; each is a choice the language allows) the specification's outcomes are exactly M's
+   (oex: equal whenever S did not run out of fuel; never a value where S has none).  In particular there is an
+   assignment of lookup times under which S and M agree on everything - no guard, no exempted outcome.  With
+   the empty oracle runL is runS. *)
+Theorem C08_history_exact : forall n ops,
+  Forall2 oex (runL n sinit ops (pols_run n minit ops)) (runM n minit ops).
+Proof. exact history_exact. Qed.
+Print Assumptions C08_history_exact.
+Theorem C08_history_exact_exists : forall n ops, exists pols, Forall2 oex (runL n sinit ops pols) (runM n minit ops).
+Proof. exact history_exact_exists. Qed.
+Print Assumptions C08_history_exact_exists.
+Theorem C08_oracle_empty_is_spec : forall n ops s, runL n s ops [] = runS n s ops.
+Proof. exact runL_early. Qed.
+Print Assumptions C08_oracle_empty_is_spec.
+(* Non-vacuity of the lookup-time parameter (the witnesses of the former finding): (nodef (emit 5)) and
+   (nodef (+ 1 (list 2))), compiled (undef_ops) and as list forms (undef_ops_list): M emits 5 before
+   undefined-function / signals the type-error of the argument when compiled, signals undefined-function at once
+   from the list form; runL under M's lookup times says exactly that; runS says undefined-function at once. *)
+Theorem C08_lookup_time_witness :
+  let a1 := SList 2 [SSym "emit"; SInt 5%Z] in
+  let a2 := SList 2 [SSym "+"; SInt 1%Z; SList 3 [SSym "list"; SInt 2%Z]] in
+  runM 50 minit (undef_ops a1) = [(Err EUndefined, [VInt 5%Z])] /\
+  runL 50 sinit (undef_ops a1) (pols_run 50 minit (undef_ops a1)) = [(Err EUndefined, [VInt 5%Z])] /\
+  runM 50 minit (undef_ops_list a1) = [(Err EUndefined, [])] /\
+  runL 50 sinit (undef_ops_list a1) (pols_run 50 minit (undef_ops_list a1)) = [(Err EUndefined, [])] /\
+  runM 50 minit (undef_ops a2) = [(Err EType, [])] /\
+  runL 50 sinit (undef_ops a2) (pols_run 50 minit (undef_ops a2)) = [(Err EType, [])] /\
+  runS 50 sinit (undef_ops a1) = [(Err EUndefined, [])] /\ runS 50 sinit (undef_ops a2) = [(Err EUndefined, [])].
+Proof. exact lookup_time_witness. Qed.
+Print Assumptions C08_lookup_time_witness.
 
-(* C08-bare-symbol-body: a bare symbol as a body form that is neither a parameter nor an existing package
-   variable is bound, when the defun is evaluated, to a package variable created on the spot: the function
-   then ignores a caller's binding of that name (and answers the "unbound" marker object instead of
-   signalling); evaluating the same defun again leaves the symbol alone.  Same code object evaluated twice:
-   M gives [1; 5] where S gives [5; 5].  Guard clause G3 (g_body). *)
-Theorem C08_bare_body_symbol_refuted :
-  exists ops a b, runS 50 sinit ops = [a; a] /\ runM 50 minit ops = [b; a] /\ comparable (fst a) = true /\ a <> b.
-Proof. exact bare_body_symbol_refuted. Qed.
-Print Assumptions C08_bare_body_symbol_refuted.
+(* The witnesses of the repaired finding C08-bare-symbol-body (repo_fixes/C08-4): a bare symbol as a body form is
+   a variable reference looked up at call time.  (defun f (x) v) (defun g (v) (f 0)) (defvar v 1) (g 5), the
+   code object evaluated twice: [5; 5] in M as in S (the unrepaired code: [1; 5]); (defun f (x) nov) (f 0):
+   unbound-variable (the unrepaired code returned the marker object). *)
+Theorem C08_bare_body_symbol_repaired :
+  runS 50 sinit bare_ops = [(Val (VInt 5%Z), []); (Val (VInt 5%Z), [])] /\
+  runM 50 minit bare_ops = [(Val (VInt 5%Z), []); (Val (VInt 5%Z), [])] /\
+  runS 50 sinit bare_ops2 = [(Err EUnbound, [])] /\ runM 50 minit bare_ops2 = [(Err EUnbound, [])].
+Proof. exact bare_symbol_repaired. Qed.
+Print Assumptions C08_bare_body_symbol_repaired.
+
+(* (11) The property for whole programs.  A program = a block of function definitions es (distinct names, `defs_are
+   es ds`) followed by main forms (at least one; none of them a definition); `prog cid es mains cmp k` = read it
+   into a code object, Code.Compile it or not (cmp), evaluate it k times.  `meaning n ds mains ft gv` = the main forms
+   evaluated by S with the definitions ds on top of the table ft.
+   S: every evaluation of the code object - compiled or not, first or k-th - has that meaning, and the meaning
+   does not depend on the order of the definitions. *)
+Theorem C08_program_meaning_spec : forall n es mains ds, defs_are es ds -> Forall plain mains -> mains <> [] ->
+  forall s cid cmp k, runS n s (prog cid es mains cmp k) = repeat (meaning n ds mains (sft s) (sgv s)) k.
+Proof. exact program_meaning_S. Qed.
+Print Assumptions C08_program_meaning_spec.
+Theorem C08_program_order_spec : forall n ds ds' mains ft gv, Permutation ds ds' -> NoDup (map fst ds) ->
+  meaning n ds mains ft gv = meaning n ds' mains ft gv.
+Proof. exact program_order_S. Qed.
+Print Assumptions C08_program_order_spec.
+(* M: in ANY state related to S's (whatever has been defined, called, compiled or redefined before), the program
+   with its definitions in one order, compiled or not, evaluated k times, and the program with its definitions in
+   any other order, compiled or not, evaluated k' times, give at EVERY evaluation the same outcome, S's meaning
+   (where that is a value or a condition other than undefined-function; those outcomes are covered by (9b)).
+   This is "a program means the same whether a function is defined before or after the functions that call it,
+   whether its code was pre-compiled or is evaluated from the list form, and whether it is evaluated for the first
+   or the hundredth time" for every program of the modelled language; no guard. *)
+Theorem C08_program_meaning_invariant : forall n m s es es' ds ds' mains cid cid' cmp cmp' k k',
+  HInv m s -> defs_are es ds -> defs_are es' ds' -> Permutation ds ds' -> NoDup (map fst ds) ->
+  Forall plain mains -> mains <> [] ->
+  comparable (fst (meaning n ds mains (sft s) (sgv s))) = true ->
+  runM n m (prog cid es mains cmp k) = repeat (meaning n ds mains (sft s) (sgv s)) k /\
+  runM n m (prog cid' es' mains cmp' k') = repeat (meaning n ds mains (sft s) (sgv s)) k'.
+Proof. exact program_meaning_M. Qed.
+Print Assumptions C08_program_meaning_invariant.
+(* the hypotheses are satisfiable: caller before callee evaluated once uncompiled, callee before caller compiled and
+   evaluated three times: (7 2) with 2 emitted, every time *)
+Theorem C08_program_demo :
+  defs_are [pd_caller; pd_callee] pd_ds /\ defs_are [pd_callee; pd_caller] (rev pd_ds) /\
+  Permutation pd_ds (rev pd_ds) /\ NoDup (map fst pd_ds) /\ Forall plain pd_mains /\ pd_mains <> [] /\
+  meaning 50 pd_ds pd_mains [] [] = (Val (VList [VInt 7%Z; VInt 2%Z]), [VInt 2%Z]) /\
+  runM 50 minit (prog 0 [pd_caller; pd_callee] pd_mains false 1) = repeat (meaning 50 pd_ds pd_mains [] []) 1 /\
+  runM 50 minit (prog 0 [pd_callee; pd_caller] pd_mains true 3) = repeat (meaning 50 pd_ds pd_mains [] []) 3.
+Proof. exact program_demo. Qed.
+Print Assumptions C08_program_demo.
 
 (* (10) The invariant holds initially; the hypotheses are satisfiable in a non-trivial reachable state
    (forward reference patched, compiled slots holding both the registered and a newer Lambda). *)
